@@ -940,7 +940,6 @@ class Part(object):
             if e.staff is not None and e.staff > max_staves:
                 max_staves = e.staff
 
-        self._number_of_staves = max_staves
         return max_staves
 
     def _remove_point(self, tp):
